@@ -1556,7 +1556,10 @@ def _run_replicas(res, replicas, op, live, outcome, mode, solver, oi):
             # far larger one (then strong damping); if it arrives, its results are compared like any others
             slow = s if out == "nc" else ref
             solver.begin_calc([])
-            if _retry_with_patience(slow.net, slow.last_kw):
+            # (not where the recorded defect of the matrix-update path with pressure controllers decides the verdict:
+            # hundreds of extra iterations per replica would be spent on a known finding)
+            known_case = s.overrides.get("only_update_hydraulic_matrix") and "press_control" in s.net and len(s.net.press_control)
+            if not known_case and _retry_with_patience(slow.net, slow.last_kw):
                 res.count("probe:converged-with-larger-budget")
                 slow.primed = False
                 if slow is ref:
